@@ -57,6 +57,15 @@ func VsH_SpaceRendering() {
 		vsAssert(ws.BindingTarget == "bt"+string(append(append([]byte{}, h...), 0, byte(bl))), "binding-target-is-hash160-of-key-then-proof-type-then-size")
 		vsAssert(ws.BitLength == uint32(bl) && ws.SpaceId == "sid" && ws.Ordinal == wsi.Ordinal, "size-id-and-ordinal-are-the-spaces")
 		vsAssert(len(ws.PublicKey) == 66, "public-key-is-rendered-as-66-hex-digits")
+		// the same key listed again with another size (a re-plotted key, or both listings in one process)
+		bl2 := int(vsNondetU8("bitlength2"))
+		vsAssume(bl2 >= 24 && bl2 <= 40 && bl2 != bl)
+		wsi.BitLength = bl2
+		ws2, err := workSpaceInfo2ProtoWorkSpace(wsi)
+		vsAssert(err == nil && ws2 != nil, "native-space-is-rendered-again")
+		vsAssume(err == nil && ws2 != nil)
+		vsAssert(ws2.BindingTarget == "bt"+string(append(append([]byte{}, h...), 0, byte(bl2))), "binding-target-of-the-same-key-with-another-size-carries-that-size")
+		vsAssert(ws2.Address == "ms"+string(h) && ws2.BitLength == uint32(bl2), "address-and-size-of-the-second-listing")
 	} else {
 		var id pocutil.Hash
 		copy(id[:], vsNondetBytes(32, "plotid"))
@@ -70,6 +79,13 @@ func VsH_SpaceRendering() {
 		h := vsH160(id[:])
 		vsAssert(ws.BindingTarget == "bt"+string(append(append([]byte{}, h...), 1, byte(bl))), "chia-binding-target-is-hash160-of-plot-id-then-proof-type-then-k")
 		vsAssert(ws.K == uint32(bl) && ws.SpaceId == "sid", "k-and-id-are-the-spaces")
+		bl2 := int(vsNondetU8("k2"))
+		vsAssume(bl2 >= 24 && bl2 <= 40 && bl2 != bl)
+		wsi.BitLength = bl2
+		ws2, err := workSpaceInfo2ProtoWorkSpaceV2(wsi)
+		vsAssert(err == nil && ws2 != nil, "chia-space-is-rendered-again")
+		vsAssume(err == nil && ws2 != nil)
+		vsAssert(ws2.BindingTarget == "bt"+string(append(append([]byte{}, h...), 1, byte(bl2))), "chia-binding-target-of-the-same-plot-id-with-another-k-carries-that-k")
 	}
 	vsReach("rendered")
 }
